@@ -59,9 +59,9 @@ type scenario struct {
 	Faults    int    `json:"fault_budget"`
 	Stops     int    `json:"stop_budget"`
 	Burst     int    `json:"initial_events"`
-	// canonical Go map orders the run must exhibit (the case is re-run until it does, see runCase)
-	MailFirst bool `json:"mail_first_once"`
-	RevWS     bool `json:"reversed_ws_once"`
+	// canonical Go map order (workspaces inside the view ApplyBatch) the run must exhibit: the case is
+	// re-run until it does, see runCase
+	RevWS bool `json:"reversed_ws_once"`
 	// Script: if non-empty, the moves are taken from it instead of the PRNG (corpus cases);
 	// Events: attributes of the appended events, in order (the PRNG decides beyond the list)
 	Script []string `json:"script,omitempty"`
@@ -359,26 +359,16 @@ func (d *driver) flushGate(g *gate) {
 		d.flView, d.flMail = d.bufView, d.bufMail
 		d.bufView, d.bufMail = nil, nil
 		d.flGates = 0
-		wsSeen := map[istructs.WSID]bool{}
-		for _, o := range d.flView {
-			wsSeen[d.events[o-1].WS] = true
-		}
 		if len(d.flMail) > 0 {
+			// FlushBundles applies the view storage last (repair of F21); a view-first order would be a
+			// regression: it is recorded, judged by the oracle and rejected by the model, not retried
 			d.mailFlushes++
 			first := "view"
 			if g.kind == "mail" {
 				first = "mail"
 			}
 			d.orderSeen = append(d.orderSeen, first+"-first")
-			want := "view"
-			if d.sc.MailFirst && d.mailFlushes == 1 {
-				want = "mail"
-			}
-			if first != want {
-				d.wrongOrder = true
-			}
 		}
-		_ = wsSeen
 	}
 	if g.kind == "putWS" {
 		// the first of two workspace batches: insertion order unless the scenario asks for the reverse once
@@ -579,12 +569,22 @@ func (d *driver) apply(m move) {
 func (d *driver) pick(drain bool) move {
 	ms := d.moves(drain)
 	if !drain && d.script < len(d.sc.Script) {
-		// scripted move: "name" or "name:fault"
+		// scripted move: "name", "name:fault" or "name:fault@kind" (the fault only at a call of that kind)
 		parts := strings.SplitN(d.sc.Script[d.script], ":", 2)
 		d.script++
 		mv := move{name: parts[0]}
 		if len(parts) == 2 {
-			fmt.Sscanf(parts[1], "%d", &mv.fault)
+			fk := strings.SplitN(parts[1], "@", 2)
+			fmt.Sscanf(fk[0], "%d", &mv.fault)
+			if len(fk) == 2 {
+				who := byte('P')
+				if mv.name == "relR" {
+					who = 'R'
+				}
+				if g := d.find(who); g == nil || g.kind != fk[1] {
+					mv.fault = 0
+				}
+			}
 		}
 		for _, m := range ms {
 			if m.name == mv.name {
